@@ -65,3 +65,29 @@ def _eval_rt(clsname, **kw):
         if got != v:
             bad.append('field %s: %r != %r' % (f, got, v))
     return bad
+
+
+@oracle('decimal_year_civil')
+def _decimal_year_civil(year, month, day, hour, minute, second, microsecond):
+    """decimal_year(d) == year + (d - Jan 1 of the year) / (Jan 1 of the next year - Jan 1 of the year), computed with exact
+    datetime arithmetic (fractions); tolerance: a few ulps of the year number"""
+    import datetime
+    import fractions
+    from csep.utils import time_utils as tu
+    try:
+        d = datetime.datetime(int(year), int(month), int(day), int(hour), int(minute), int(second), int(microsecond))
+    except (ValueError, OverflowError):
+        return []
+    if not 1 <= d.year <= 9998:
+        return []
+    out = call(tu.decimal_year, d)
+    if out[0] == 'raise':
+        return ['unexpected exception ' + _exc(out)]
+    a, b = datetime.datetime(d.year, 1, 1), datetime.datetime(d.year + 1, 1, 1)
+    us = lambda td: td.days * 86400 * 10 ** 6 + td.seconds * 10 ** 6 + td.microseconds
+    exp = d.year + fractions.Fraction(us(d - a), us(b - a))
+    got = fractions.Fraction(float(out[1]))
+    tol = fractions.Fraction(4 * 2.0 ** -52 * d.year)
+    if abs(got - exp) > tol:
+        return ['decimal_year(%s) = %r, elapsed fraction of the year gives %r' % (d.isoformat(), out[1], float(exp))]
+    return []
